@@ -46,6 +46,14 @@ let obs_xml cn pn = match D.find_desc_xml D.database cn pn with
   | D.OutOfFuel -> "FUEL"
   | D.Err _ -> "ERR"
 
+let obs_default cn pn = match D.default_obs D.database cn pn with
+  | D.Ok None -> "noclass"
+  | D.Ok (Some None) -> "-"
+  | D.Ok (Some (Some (o, vt))) -> Printf.sprintf "%s:V%d" (ocaml_string o) (int_of_n vt)
+  | D.Panic -> "PANIC"
+  | D.OutOfFuel -> "FUEL"
+  | D.Err _ -> "ERR"
+
 let strip_prefix pre l =
   let n = String.length pre in
   if String.length l >= n && String.sub l 0 n = pre then Some (String.sub l n (String.length l - n)) else None
@@ -60,7 +68,7 @@ let run path out =
       | Some c -> cls := coq_string c
       | None ->
         (match strip_prefix "p " l with
-         | Some p -> let pn = coq_string p in Printf.fprintf oc "B %s X %s\n" (obs_bin !cls pn) (obs_xml !cls pn)
+         | Some p -> let pn = coq_string p in Printf.fprintf oc "B %s X %s D %s\n" (obs_bin !cls pn) (obs_xml !cls pn) (obs_default !cls pn)
          | None -> ())) lines;
     output_string oc "end\n") (Mcommon.read_cases path);
   close_out oc
